@@ -97,6 +97,14 @@ def full_spec(doc_seed, base, kind):
         if p["dtype"] == "string" and rng.random() < 0.5:
             p["value"] = "first, second"
         feats.append("multi-values")
+    nums = [p for p in props if p["dtype"] in ("int", "float")]
+    if nums and kind in GOOD10 and rng.random() < 0.4:
+        # numbers written as numbers (JSON / YAML), zero among them
+        p = rng.choice(nums)
+        p["native"] = True
+        p["value"] = "0"
+        p["uncertainty"] = rng.choice([0, 0.5])
+        feats.append("native-numbers")
     if props and kind in ("v10json", "v10yaml") and rng.random() < 0.3:
         rng.choice(props)["unit_null"] = True         # "unit": null
         feats.append("null-unit")
@@ -126,6 +134,8 @@ def xml10(spec):
             inner = "<type>%s</type>" % p["dtype"]
             if p["unit"]:
                 inner += "<unit>%s</unit>" % p["unit"]
+            if "uncertainty" in p:
+                inner += "<uncertainty>%s</uncertainty>" % p["uncertainty"]
             for val in [p["value"]] + p.get("more", []):
                 out.append("%s    <value>%s%s</value>" % (pad, val, inner))
             out.append("%s  </property>" % pad)
@@ -153,6 +163,10 @@ def dict10(spec, dates_as_objects=False):
                 vals = []
                 for text in [p["value"]] + p.get("more", []):
                     val = {"value": text, "dtype": p["dtype"]}
+                    if p.get("native"):
+                        val["value"] = int(text) if p["dtype"] == "int" else float(text)
+                    if "uncertainty" in p:
+                        val["uncertainty"] = p["uncertainty"]
                     if p["unit"]:
                         val["unit"] = p["unit"]
                     elif p.get("unit_null"):
@@ -198,7 +212,9 @@ def describe(doc):
     """(sorted) name/type/value description of a loaded document."""
     def sec_d(sec):
         return {"name": sec.name, "type": sec.type,
-                "props": sorted([(p.name, [str(v) for v in p.values], p.unit) for p in sec.properties]),
+                "props": sorted([(p.name, [str(v) for v in p.values], p.unit) +
+                                 ((float(p.uncertainty),) if p.uncertainty is not None else ())
+                                 for p in sec.properties]),
                 "secs": sorted([sec_d(s) for s in sec.sections], key=lambda d: d["name"])}
     return {"author": doc.author, "date": str(doc.date) if doc.date else None,
             "version": doc.version,
@@ -212,7 +228,8 @@ def describe_spec(spec, conv10=False):
         props = []
         for p in sec["props"]:
             vals = [str(dtypes.get(v, p["dtype"])) for v in [p["value"]] + p.get("more", [])]
-            props.append((p["name"], vals, p["unit"]))
+            props.append((p["name"], vals, p["unit"]) +
+                         ((float(p["uncertainty"]),) if "uncertainty" in p else ()))
         return {"name": sec["name"], "type": sec["type"], "props": sorted(props),
                 "secs": sorted([sec_d(s) for s in sec["secs"]], key=lambda d: d["name"])}
     return {"author": spec["author"], "date": spec.get("date"),
@@ -245,6 +262,9 @@ def generate(run_seed):
         run["indir"] = "dot"         # called from inside the input directory: "."
     if tool == "odmlconvert" and rng.random() < 0.35:
         run["chain"] = True      # second tool run: odmltordf over the result of the first
+    wrng = seeds.Streams(run_seed).get("warmup")
+    if wrng.random() < 0.2:
+        run["warmup"] = wrng.choice(["-r", "flat"])
     if tool == "formatconverter":
         run["target"] = rng.choice(FC_TARGETS)
         run["api"] = rng.choice(["convert", "convert_dir"])
@@ -315,6 +335,30 @@ def run_case(case):
         for d in case["dirs"]:
             os.makedirs(os.path.join(indir, d), exist_ok=True)
         materialise(odml, indir, case["tree"])
+        if run.get("warmup"):
+            # the process has run the tool before, over the same tree, into a directory that is
+            # gone again: a run does not depend on what earlier runs of the process have seen
+            import shutil
+            warm = os.path.join(box, "warm_out")
+            os.makedirs(warm)
+            old = os.getcwd()
+            os.chdir(cwd)
+            try:
+                if tool in ("odmlconvert", "odmltordf"):
+                    if tool == "odmlconvert":
+                        from odml.scripts import odml_convert as wmod
+                    else:
+                        from odml.scripts import odml_to_rdf as wmod
+                    wmod.main((["-r"] if run["warmup"] == "-r" else []) + ["-o", warm, indir])
+                else:
+                    from odml.tools.converters.format_converter import FormatConverter as WFC
+                    WFC.convert_dir(indir, warm, run["warmup"] == "-r", run["target"])
+            except (SystemExit, Exception):
+                pass
+            finally:
+                os.chdir(old)
+            shutil.rmtree(warm, ignore_errors=True)
+            env.capture.take()
         before = fsbox.snapshot(box)
         args = []
         old_cwd = os.getcwd()
@@ -364,6 +408,8 @@ def run_case(case):
         created, changed, removed = fsbox.diff(before, after)
         kinds = sorted(set(f["kind"] for f in case["tree"]))
         labels = [tool, "-r" if run["recursive"] else "flat", "out:" + run["out"]]
+        if run.get("warmup"):
+            labels.append("second-run")
         if run.get("indir", "plain") != "plain":
             labels.append("indir:" + run["indir"])
         if tool == "formatconverter":
